@@ -203,13 +203,17 @@ func withoutWidth(d Directive) Directive {
 // checkScalar evaluates the clauses on one scalar value rendered under one directive string.
 // render re-runs the implementation on the same value with another directive (metamorphic part).
 func checkScalar(v Val, ds string, o Obs, render func(ds string) Obs) []finding {
+	var renderNeg func(ds string) Obs
+	if v.K == "float" {
+		renderNeg = func(ds2 string) Obs { return formatCase(vFloat(-v.float()), sStr(ds2)) }
+	}
 	var fs []finding
 	add := func(clause, what string, tags ...string) {
 		fs = append(fs, finding{clause, what, tags})
 	}
 	d, cls := refParse(ds)
 	if cls != "" {
-		if o.Err != cls {
+		if !classMatches(cls, o.Err) {
 			add("grammar", fmt.Sprintf("directive %q is outside the grammar (%s) but formatting gives %s", ds, cls, o), "grammar-"+cls)
 		}
 		return fs
@@ -262,6 +266,13 @@ func checkScalar(v Val, ds string, o Obs, render func(ds string) Obs) []finding 
 			if msg := checkG(v, d, out); msg != "" {
 				add("numeric", fmt.Sprintf("%s under %q renders %q: %s", v, ds, out, msg), "numeric-g")
 				return fs
+			}
+			// sign symmetry: without width and sign flags, -x renders as "-" followed by the rendering of x
+			if f, _ := floatOf(v); v.K == "float" && f > 0 && !math.IsInf(f, 0) && d.Width < 0 && !d.has('+') && !d.has(' ') && renderNeg != nil {
+				if neg := renderNeg(ds); neg.Err != "" || neg.Text != "-"+out {
+					add("numeric", fmt.Sprintf("%s under %q renders %q but its negation renders %s: the sign changes the digits", v, ds, out, neg), "numeric-g-sign")
+					return fs
+				}
 			}
 		}
 	}
@@ -341,7 +352,12 @@ func checkTree(v Val, pv px.Value, ctx px.FormatContext, o Obs, depth int, fs *[
 	f := px.GetFormat(ctx.FormatMap(), pv.PType())
 	if !v.isContainer() {
 		ds := f.OrigFormat()
-		sub := checkScalar(v, ds, o, func(ds2 string) Obs {
+		sub := checkScalar(v, ds, o, func(ds2 string) (o2 Obs) {
+			defer func() {
+				if r := recover(); r != nil {
+					o2 = classify(r)
+				}
+			}()
 			return renderPx(pv, px.NewFormatContext(pv.PType(), px.NewFormat(ds2), ctx.Indentation()))
 		})
 		*fs = append(*fs, sub...)
@@ -349,7 +365,7 @@ func checkTree(v Val, pv px.Value, ctx px.FormatContext, o Obs, depth int, fs *[
 	}
 	kind := v.kindName()
 	c := f.FormatChar()
-	if o.Err == "fault" || o.Err == "other" || o.Err == "failure" {
+	if o.Err == "fault" || o.Err == "other" {
 		add("total", fmt.Sprintf("%s: %s", v, o), "fault")
 		return
 	}
